@@ -24,8 +24,10 @@ EXTRA = [{"aliaser": "prefix"}, {"additional_properties": True}, {"aliaser": "pr
 
 def jobs(prop, tier, seed):
     out = []
-    for pid in pools.ids("ser", tier):
-        spec, _ = pools.get("ser", pid)
+    ser_ids = pools.ids("ser", tier)
+    todo = [("ser", pid) for pid in ser_ids] + [("union", pid) for pid in pools.ids("union", tier) if pid not in ser_ids]
+    for pool, pid in todo:
+        spec, _ = pools.get(pool, pid)
         if any(s.k == "obj" and s.opt("fields_set") for s in walk(spec)):
             continue  # unset-tracking is excluded by the statement
         if any(s.k == "enum" and any(not isinstance(v, (int, str, float, bool)) for v in s.a) for s in walk(spec)):
@@ -33,7 +35,7 @@ def jobs(prop, tier, seed):
         optsets = (SETTINGS + EXTRA) if has_obj(spec) else [{}]
         for o in optsets:
             b = dict(depth=2, width=2, strlen=2) if tier == "quick" else dict(depth=3, width=3, strlen=3)
-            out.append(dict(harness="C07", pool="ser", pid=pid, opts=o, bounds=b, budget_s=25 if tier == "quick" else 120))
+            out.append(dict(harness="C07", pool=pool, pid=pid, opts=o, bounds=b, budget_s=25 if tier == "quick" else 120))
     return out
 
 
@@ -62,7 +64,11 @@ class Inst:
         if "additional_properties" in o:
             kw["additional_properties"] = o["additional_properties"]
         self.method = serialization_method(self.prog.tp, **kw)
-        self.schema = dict(serialization_schema(self.prog.tp, **kw))
+        self.schema_error = None
+        try:
+            self.schema = dict(serialization_schema(self.prog.tp, **kw))
+        except Exception as e:  # a supported type without a schema: reported from body()
+            self.schema, self.schema_error = {}, type(e).__name__
         self.bounds = bounds_of(job)
         self.functions = (method_classes(self_of(self.method)) or ["apischema.serialization.methods.IdentityMethod.serialize"]) + [
             "apischema.json_schema.schema.serialization_schema (concrete, per program and settings)"
@@ -71,6 +77,8 @@ class Inst:
         self.assumptions = ["values satisfy the schema constraints of their type (assumed at generation)"]
         self.relax = ()
         self.repair = False
+        self.repair_disc = False
+        self.repair_lone = False
         self.drop_dependent_required = False
         self.want_samples = 5
 
@@ -78,15 +86,29 @@ class Inst:
         return getattr(self, "_triples", [])
 
     def body(self, ctx: Ctx) -> Optional[Failure]:
+        if self.schema_error:
+            ctx.run_phase()
+            return Failure("schema-generation-raises", self.schema_error, witness=None, extra={"exc": self.schema_error})
         v = Val(ctx, self.prog, self.bounds, respect_constraints=True).val(self.prog.spec)
         ctx.witness = v
         ctx.run_phase()
         out = self.method(v)
         sch = self.schema
+        if self.repair_disc:
+            from vf.harness.C06 import repair_discriminator
+
+            o = self.job.get("opts", {})
+            sch = repair_discriminator(sch, self.prog.spec, get_aliaser(o.get("aliaser")), o.get("additional_properties", False))
+            if sch is None:
+                return Failure("discriminator-repair-impossible", witness=v)
         if self.repair:
             from vf.harness.C06 import repair_flatten
 
             sch = repair_flatten(sch, self.job.get("opts", {}).get("additional_properties", False))
+        if self.repair_lone:
+            from vf.harness.C06 import repair_lone_subclass
+
+            sch = repair_lone_subclass(sch, self.job.get("opts", {}).get("additional_properties", False))
         if self.drop_dependent_required:
             sch = strip_keyword(sch, "dependentRequired")
         try:
@@ -94,7 +116,7 @@ class Inst:
         except OutsideDomain:
             raise Assume("outside the common semantic domain")
         except DanglingRef as e:
-            return Failure("dangling-ref", str(e), witness=v)
+            return Failure("ill-founded-ref" if type(e).__name__ == "IllFounded" else "dangling-ref", str(e), witness=v)
         ctx.notes["tag:validated"] = True
         ctx.notes["out"] = out
         if ctx.concrete is not None and plain_json(out):
